@@ -84,6 +84,34 @@ pub mod biguint {
                 (self.data.len() % 8) as u8
             }
 
+            // R3c-digit-step: a borrow taken from one digit without propagation
+            pub fn borrow_one(&mut self, at: usize) {
+                self.data[at] -= 1;
+            }
+
+            // negative control for R3c-digit-step: the digit is tested before the step
+            pub fn bump_low(&mut self) {
+                if let Some(d) = self.data.first_mut() {
+                    if *d < u64::MAX {
+                        *d += 1;
+                    }
+                }
+            }
+
+            // R3c-operand-overflow (abs form): |i64::MIN| does not exist in i64
+            pub fn scale_by(&self, k: i64) -> u64 {
+                if k >= 0 {
+                    k as u64
+                } else {
+                    k.abs() as u64
+                }
+            }
+
+            // negative control: unsigned_abs is total
+            pub fn scale_by_total(&self, k: i64) -> u64 {
+                k.unsigned_abs()
+            }
+
             // negative control for R3c-operand-overflow: the parameter is range-checked first
             pub fn succ_checked(&self, exp: u8) -> u8 {
                 assert!(exp < 200);
